@@ -261,6 +261,8 @@ class Interp(ExprMixin):
             return int(x, *a)
 
         def b_float(x=0.0):
+            if getattr(x, "is_Rational", False) and hasattr(x, "p") and exact():
+                return Fraction(int(x.p), int(x.q))
             if isinstance(x, Sym):
                 return x if not x.is_int else Sym(_sym.zreal(x))
             if isinstance(x, SymBool):
